@@ -99,6 +99,8 @@ void one_case(Ctx &c) {
     bool up = c.t.coin();
     static const uint32_t M[6] = {4, 7, 8, 14, 256, 263};
     uint32_t size; { uint32_t r = c.t.below(6); size = r == 0 ? 1 + c.t.below(4) : r == 1 ? 248 + c.t.below(24) : r == 2 ? 7 * (1 + c.t.below(40)) : r == 3 ? 256 * (1 + c.t.below(7)) + c.t.below(17) - 8 : c.t.biased(1, 2000, M, 6); }
+    // mode large-transfer: one segmented transfer around and beyond 64 KiB (65536 +- a few bytes, up to 66900, around 128 KiB)
+    if (c.param == 1 && x == 0) { uint32_t r2 = c.t.below(8); size = r2 < 3 ? 65529 + c.t.below(16) : r2 < 6 ? 65536 + c.t.below(1400) : 131065 + c.t.below(16); c.cls("transfer-of-64KiB-or-more"); }
     int tmo = 1 + (int)c.t.below(c.t.coin() ? 6 : 40);
     uint32_t beh = c.t.below(8);      // 0..3 conforming, 4 abort at step k, 5 silent from step k, 6/7 malformed at step k
     uint32_t nsteps = size <= 4 ? 1 : 1 + (size + 6) / 7;
@@ -130,7 +132,7 @@ void one_case(Ctx &c) {
     }
     uint32_t off = 0, step = 0; int tgl = 0; long lastreq = s.tick; bool finished = false, conforming = true, ended_by_stale = false; uint32_t expcode = 0; bool stale_t = c.t.chance(90);
     for (int guard = 0; !finished; guard++) {
-      CHECK(c, guard < 6000, "progress", "transfer makes no progress");
+      CHECK(c, guard < 6000 + (int)(size / 3), "progress", "transfer makes no progress");
       if (cb.count > 0) { finished = true; break; }
       // the client's request frame
       std::vector<Frame> q; for (auto &t : s.tx) q.push_back(t); s.clear_tx();
@@ -308,8 +310,10 @@ Registrar reg(Prop{
     "In a fifth of the transfers the application asks for its next transfer from inside the completion callback: refused (busy) or accepted - then that transfer has to complete exactly once with the server's bytes. "
     "In a quarter of the undisturbed transfers application timers occupy every remaining slot of the timer pool while the transfer runs (it needs no second slot at any moment). In a third of the configurations a request is made with the timer pool exhausted by application timers: accepted (and then completed normally) or refused - then the client must be usable again as soon as a slot is free. "
     "user buffers are exact-size heap blocks (ASan red zones); download buffers unmodified (conforming servers); timer-pool occupancy after completion equals the one before; client idle; no callback or frame during the idle gap or on a late server frame. For malformed servers only exactly-once (by the timeout at the latest), memory safety and nothing-left-behind are asserted. "
+    "Mode large-transfer: the first transfer of the case moves 65529..66935 or 131065..131080 bytes (a firmware image) under the same oracle. "
     "Non-trivial: >= 2 transfers in the case or a segmented transfer. Distinct = distinct decoded choice sequence.",
-    {Mode{"random", one_case, false, 1200000, 15000000, 0, 0, 400, 1500}},
+    {Mode{"random", one_case, false, 1200000, 15000000, 0, 0, 400, 1500},
+     Mode{"large-transfer", one_case, false, 3000, 60000, 1, 1, 200, 300}},
     {"timer frequency 1000 Hz (1 ms = 1 tick)", "for uploads the application passes the object's size as buffer size (the client refuses a different announced size by design)"}});
 
 }  // namespace
